@@ -1,1 +1,229 @@
-//! placeholder
+//! RefBuild: a small reference model of n2's up-to-date logic, written from
+//! the statements of C02/C03/C08/C09 (see DESIGN.md §3.7).  It never reads
+//! anything back from n2: the file table is mirrored from the harness's own
+//! edits and command effects.
+
+use crate::project::{Project, Step};
+use crate::refcanon;
+use std::collections::BTreeMap;
+
+#[derive(Debug, Clone, Copy, PartialEq, Eq)]
+pub struct FileInfo {
+    /// Logical modification time.
+    pub mtime: u64,
+    /// Content tag.
+    pub tag: u64,
+}
+
+#[derive(Debug, Clone, PartialEq, Eq, Default)]
+pub struct Signature {
+    pub ins: Vec<(String, u64)>,
+    pub deps: Vec<(String, u64)>,
+    pub cmd: String,
+    pub rsp: Option<(String, String)>,
+    pub outs: Vec<(String, u64)>,
+}
+
+#[derive(Debug, Clone, PartialEq, Eq)]
+pub struct Record {
+    pub outs: Vec<String>,
+    pub deps: Vec<String>,
+    pub sig: Signature,
+}
+
+#[derive(Debug, Clone, Default)]
+pub struct Model {
+    pub files: BTreeMap<String, FileInfo>,
+    pub clock: u64,
+    pub log: Vec<Record>,
+}
+
+#[derive(Debug, Clone, PartialEq, Eq)]
+pub enum Dirty {
+    Clean,
+    /// Needs to run, with the reason.
+    Dirty(String),
+    /// A declared source input does not exist: the build must fail naming it.
+    MissingSource(String),
+}
+
+impl Dirty {
+    pub fn is_dirty(&self) -> bool {
+        matches!(self, Dirty::Dirty(_))
+    }
+}
+
+pub fn canon(s: &str) -> String {
+    String::from_utf8(refcanon::canon(s.as_bytes())).expect("utf8")
+}
+
+pub fn tag_hash(parts: &[&str], nums: &[u64]) -> u64 {
+    let mut h = crate::enumerate::Fnv::default();
+    for p in parts {
+        h.str(p);
+    }
+    for n in nums {
+        h.u64(*n);
+    }
+    // Keep tags short and printable.
+    h.0 % 1_000_000_007
+}
+
+impl Model {
+    pub fn tick(&mut self) -> u64 {
+        self.clock += 1;
+        self.clock
+    }
+
+    pub fn exists(&self, f: &str) -> bool {
+        self.files.contains_key(f)
+    }
+
+    /// The record that applies to `step` under the current manifest: the latest
+    /// one all of whose outputs are outputs of this step.
+    pub fn attached<'a>(&'a self, p: &Project, step: usize) -> Option<&'a Record> {
+        let s = &p.steps[step];
+        self.log
+            .iter()
+            .rev()
+            .find(|r| !r.outs.is_empty() && r.outs.iter().all(|o| s.all_outs().any(|x| x == o)))
+            .filter(|r| {
+                // The latest record that *mentions* any output of this step
+                // decides: if a newer record names one of our outputs together
+                // with foreign files it does not apply, but it also does not
+                // hide an older one (n2 scans all records, later ones that
+                // apply overwrite earlier ones).
+                let _ = r;
+                true
+            })
+    }
+
+    pub fn discovered(&self, p: &Project, step: usize) -> Vec<String> {
+        self.attached(p, step).map(|r| r.deps.clone()).unwrap_or_default()
+    }
+
+    fn stamp(&self, list: &[String]) -> Option<Vec<(String, u64)>> {
+        let mut v = Vec::new();
+        for f in list {
+            v.push((f.clone(), self.files.get(f)?.mtime));
+        }
+        Some(v)
+    }
+
+    /// Signature of the step in the current file table, given its discovered
+    /// dependency list; None if any of the files is missing.
+    pub fn signature(&self, s: &Step, deps: &[String]) -> Option<Signature> {
+        let ins: Vec<String> = s.dirtying_ins().into_iter().cloned().collect();
+        let outs: Vec<String> = s.all_outs().cloned().collect();
+        Some(Signature {
+            ins: self.stamp(&ins)?,
+            deps: self.stamp(deps)?,
+            cmd: s.cmdline.clone(),
+            rsp: s.rspfile.clone(),
+            outs: self.stamp(&outs)?,
+        })
+    }
+
+    pub fn is_dirty(&self, p: &Project, step: usize) -> Dirty {
+        let s = &p.steps[step];
+        if s.phony {
+            return Dirty::Clean;
+        }
+        for f in s.dirtying_ins() {
+            if !self.exists(f) {
+                if p.producer(f).is_none() {
+                    return Dirty::MissingSource(f.clone());
+                }
+                return Dirty::Dirty(format!("generated input {} missing", f));
+            }
+        }
+        let deps = self.discovered(p, step);
+        for f in &deps {
+            if !self.exists(f) {
+                return Dirty::Dirty(format!("discovered dependency {} missing", f));
+            }
+        }
+        for f in s.all_outs() {
+            if !self.exists(f) {
+                return Dirty::Dirty(format!("output {} missing", f));
+            }
+        }
+        let Some(rec) = self.attached(p, step) else {
+            return Dirty::Dirty("no record".into());
+        };
+        let sig = self.signature(s, &deps).expect("all files exist");
+        if sig != rec.sig {
+            return Dirty::Dirty("signature changed".into());
+        }
+        Dirty::Clean
+    }
+
+    /// What the step's discovered list becomes after a successful run that
+    /// reported `reported` (None = the command has no dependency reporting).
+    pub fn normalise_report(s: &Step, reported: Option<&[String]>) -> Vec<String> {
+        let mut deps: Vec<String> = Vec::new();
+        if let Some(r) = reported {
+            let dirtying: Vec<&String> = s.dirtying_ins();
+            for name in r {
+                if name.is_empty() {
+                    continue;
+                }
+                let c = canon(name);
+                if deps.contains(&c) || dirtying.iter().any(|d| **d == c) {
+                    continue;
+                }
+                deps.push(c);
+            }
+        }
+        deps
+    }
+
+    /// Called after a command of `step` finished successfully and its effects
+    /// are in the file table.  Appends a record unless something is missing.
+    pub fn record_success(&mut self, p: &Project, step: usize, reported: Option<&[String]>) {
+        let s = &p.steps[step];
+        let deps = Self::normalise_report(s, reported);
+        if let Some(sig) = self.signature(s, &deps) {
+            self.log.push(Record {
+                outs: s.all_outs().cloned().collect(),
+                deps,
+                sig,
+            });
+        } else {
+            // Nothing is appended: the previous record stays the latest one,
+            // but the step is dirty next time because a file is missing.
+        }
+    }
+
+    /// Adopt mode (`-t restat`): a dirty step whose files all exist gets a
+    /// record with the current signature and its unchanged discovered list.
+    pub fn adopt(&mut self, p: &Project, step: usize) {
+        let s = &p.steps[step];
+        if s.phony {
+            return;
+        }
+        let deps = self.discovered(p, step);
+        if let Some(sig) = self.signature(s, &deps) {
+            self.log.push(Record {
+                outs: s.all_outs().cloned().collect(),
+                deps,
+                sig,
+            });
+        }
+    }
+
+    /// Content tag a correct run of `step` produces for output `out` now:
+    /// a function of the command, the response file and the contents of what
+    /// the command truly reads.
+    pub fn output_tag(&self, s: &Step, out: &str, reads: &[String]) -> u64 {
+        let mut nums = Vec::new();
+        for f in s.dirtying_ins() {
+            nums.push(self.files.get(f).map(|i| i.tag).unwrap_or(0));
+        }
+        for f in reads {
+            nums.push(self.files.get(f).map(|i| i.tag).unwrap_or(0));
+        }
+        let rsp = s.rspfile.as_ref().map(|r| r.1.as_str()).unwrap_or("");
+        tag_hash(&[&s.cmdline, rsp, out], &nums)
+    }
+}
